@@ -1,5 +1,6 @@
 import TantivyModel.Driver.Proto
 import TantivyModel.Model.AggMerge
+import TantivyModel.Model.AggExtStats
 /-!
 Line protocol of the C14 model (sums are exact integers: `M := Int`).
 
@@ -8,6 +9,7 @@ Line protocol of the C14 model (sums are exact integers: `M := Int`).
   C14 merged <req> <parts>   finalize (mergeFruits (parts.map collectSeg))   (with segment truncation)
   C14 limit  <n> <req> <parts>   finalizeGuarded n on the merged tree: `ok <res>` | `err <count>`
   C14 defaults <size|_> <segment_size|_> <min_doc_count|_>   size, segment_size, min_doc_count, default bucket limit
+  C14 extstats <sigma*4> <parts of integers>   extended_stats accumulator (Welford + Chan over Rat): count sum Σv² M2 sigma
   C14 histpos <interval> <offset> <v>      bucket position
   C14 rangeidx <cuts> <v>                  range bucket index
 
@@ -175,6 +177,19 @@ def handle : List String → String
       let p := TermsP.ofRequest 0 Option.none (size.map Int.toNat) (seg.map Int.toNat) (mdc.map Int.toNat) Option.none
       s!"{p.size} {p.segSize} {p.minDocCount} {Gen.AGG_DEFAULT_BUCKET_LIMIT}"
     | _, _, _ => "bad-op"
+  | ["extstats", sig4, ps] =>
+    -- extended_stats accumulator over exact rationals: one fruit per part (a part without values is
+    -- an `empty_from_req` placeholder with the default sigma), merged as collector.rs::merge_fruits
+    -- does (the last fruit is the accumulator); prints count sum sum_of_squares M2 sigma
+    match sig4.toInt?, (ps.splitOn "|").mapM (fun p => if p == "-" then some [] else (p.splitOn ",").mapM (fun v => v.toInt?)) with
+    | some s4, some parts =>
+      let σ : Rat := (s4 : Rat) / 4
+      let fruits : List ExtS := parts.map fun vs => if vs.isEmpty then ExtS.empty else ExtS.ofList σ (vs.map (fun (v : Int) => ((v : Int) : Rat)))
+      let r := match fruits.reverse with
+        | [] => ExtS.empty
+        | last :: restRev => restRev.reverse.foldl ExtS.merge last
+      s!"{r.count} {r.sum} {r.q} {r.m2} {r.sigma}"
+    | _, _ => "bad-op"
   | ["histpos", iv, off, v] =>
     match iv.toInt?, off.toInt?, v.toInt? with
     | some iv, some off, some v => if iv ≤ 0 then "bad-op" else toString (histPos iv off v)
